@@ -28,6 +28,10 @@
 (* Declarative side: FirstOcc, Leaves, IterSpec, FlatExact/FlatAdm (C3 of  *)
 (* C3Ops or any valid linearisation), SubSpec, AddLawPred/AddAdm.          *)
 (* The laws of C20 are the invariants at the end: mechanism = contract.    *)
+(* All operators are functions of their arguments only; the last clause of *)
+(* C20 ("none of these operations modifies its operands") is what makes    *)
+(* that a faithful model, and is checked on the implementation by the      *)
+(* replay (iteration and __bases__ of both operands before and after).     *)
 (***************************************************************************)
 EXTENDS C3Ops, TLC
 
@@ -292,7 +296,8 @@ FlatAdmDecl(C) ==
     {s \in PermSeqs(C) :
         \A p, q \in DOMAIN s : s[q] \in ProperAnc(s[p]) => p < q}
 \* the same set built front to back (next: an interface that no remaining
-\* one extends), tabulated once; LinExtLaw (a constant, evaluated once) equates the two
+\* one extends), tabulated once; LinExtLaw (a constant formula, evaluated
+\* once) equates the two
 RECURSIVE TopSorts(_)
 TopSorts(S) ==
     IF S = {} THEN {<<>>}
